@@ -315,8 +315,12 @@ func (kr *KeyRegistry) LatestDataKey() (*pb.DataKey, error) {
 	validKey := func() (*pb.DataKey, bool) {
 		// Time difference from the last generated time.
 		diff := time.Since(time.Unix(kr.lastCreated, 0))
-		if diff < kr.opt.EncryptionKeyRotationDuration {
-			return kr.dataKeys[kr.nextKeyID], true
+		// There must be a key to return: a nil data key means "no encryption" to every caller. A
+		// registry that has not created a key yet (lastCreated is zero, i.e. 1970) would otherwise
+		// look valid for any rotation duration longer than the time since then, and everything
+		// would be written in plaintext.
+		if dk := kr.dataKeys[kr.nextKeyID]; dk != nil && diff < kr.opt.EncryptionKeyRotationDuration {
+			return dk, true
 		}
 		return nil, false
 	}
